@@ -27,12 +27,14 @@ def mutants():
         if not os.path.exists(p):
             continue
         props = []
+        tier_needed = None
         try:
             meta = json.load(open(m))
             props = meta.get("caught_by") or [meta.get("property")]
+            tier_needed = meta.get("tier_needed")
         except Exception:
             pass
-        out.append({"name": "seeded/" + os.path.basename(d), "patch": p, "props": [x for x in props if x], "strip": 1})
+        out.append({"name": "seeded/" + os.path.basename(d), "patch": p, "props": [x for x in props if x], "strip": 1, "tier": tier_needed})
     return out
 
 
@@ -75,7 +77,7 @@ def main(args):
             for prop in m["props"]:
                 env = dict(os.environ, NSIM_REPO=d)
                 env.pop("NSIM_SUBSAMPLE", None)
-                c = subprocess.run([sys.executable, os.path.join(fw.VERIF, "check"), prop, "--tier", tier, "--no-minimise"],
+                c = subprocess.run([sys.executable, os.path.join(fw.VERIF, "check"), prop, "--tier", m.get("tier") or tier, "--no-minimise"],
                                    capture_output=True, text=True, env=env)
                 lines = [ln for ln in c.stdout.split("\n") if ln.startswith("VIOLATION")]
                 clause = [ln.strip() for ln in c.stdout.split("\n") if ln.strip().startswith("clause=")][:1]
